@@ -22,7 +22,12 @@
 (* STARTED when it ended, and never decreases from one read of the same provider to the next.    *)
 (* While nothing runs the store is exact.  Provider views group metrics (stdout has no labels:   *)
 (* "status.*" is the sum over the codes; statsd keys route timers by rendered name).             *)
+(* Named deviation of the statsd-family providers (go-kit's lv.Space appends an observation to    *)
+(* its series outside the lock that Reset takes for a flush): FlushLossy = TRUE admits that a     *)
+(* flush which runs while requests are accounted loses observations; the statsd view then has     *)
+(* only its upper bounds.                                                                        *)
 EXTENDS Metrics_MC, IOUtils
+CONSTANT FlushLossy
 VARIABLES l, late, lo, last, ws, wsB
 
 TraceLog == ndJsonDeserialize(IOEnv.VERIF_TRACE)
@@ -83,7 +88,8 @@ TSnapE == /\ Ev("SnapE") /\ E.src \in Srcs
           /\ \A k \in DOMAIN E.vals :
                /\ k \in ViewKeys
                /\ LET G == GroupOf(k) IN
-                  /\ Sum(lo[E.src], G) <= E.vals[k] /\ last[E.src][k] <= E.vals[k]
+                  /\ (Sum(lo[E.src], G) <= E.vals[k] \/ (FlushLossy /\ E.src = "statsd"))
+                  /\ last[E.src][k] <= E.vals[k]
                   /\ E.vals[k] <= Sum(cnt, G) + Sum(late, G) + Pending(G)
           /\ GaugeOK(E.gauge, wsB[E.src])
           /\ last' = [last EXCEPT ![E.src] = [k \in ViewKeys |-> IF k \in DOMAIN E.vals THEN E.vals[k] ELSE @[k]]]
@@ -93,7 +99,11 @@ TSettle == /\ Ev("Settle") /\ \A r \in Slots : req[r].pc = "idle"
            /\ late' = Zero(Keys) /\ ws' = [ws EXCEPT !.cC = ws.cS]
            /\ UNCHANGED <<table, nswaps, req, nreq, conns, gauge, gdoc, hist, lo, last, wsB>>
 TExact == /\ Ev("Exact") /\ E.src \in Srcs /\ late = Zero(Keys) /\ \A r \in Slots : req[r].pc = "idle"
-          /\ \A k \in DOMAIN E.vals : k \in ViewKeys /\ E.vals[k] = Sum(cnt, GroupOf(k))
+          /\ \A k \in DOMAIN E.vals :
+               /\ k \in ViewKeys
+               /\ IF FlushLossy /\ E.src = "statsd"
+                  THEN last[E.src][k] <= E.vals[k] /\ E.vals[k] <= Sum(cnt, GroupOf(k))
+                  ELSE E.vals[k] = Sum(cnt, GroupOf(k))
           /\ ws.oS = ws.oC /\ ws.cS = ws.cC /\ E.open = ws.oC - ws.cC
           /\ IF GaugeAtomic THEN E.gauge = E.open ELSE 0 <= E.gauge /\ E.gauge <= Cardinality(Slots)
           /\ last' = [last EXCEPT ![E.src] = [k \in ViewKeys |-> IF k \in DOMAIN E.vals THEN E.vals[k] ELSE @[k]]]
